@@ -1,4 +1,4 @@
-(* C05/Expr.v — the expression language of the halo-column loader table and its two evaluators.
+(* HaloTable/Expr.v (shared by C05 and C02) — the expression language of the halo-column loader table and its two evaluators.
 
    tools/gen/c05.py turns every loader closure of CompaSOHaloCatalog._setup_halo_field_loaders, instantiated on
    every column name of the dtype tables, into one [expr] over the generated name types [col] / [rawcol].
